@@ -833,9 +833,18 @@ pub fn format<P: Into<PathBuf>>(
     ast: Arc<ParseTree>,
     options: FormattingOptions,
 ) -> String {
+    // (margins are what a line is padded to: beyond any width a line will ever have they make no difference, except that
+    // padding to more than 65535 columns is something the standard library refuses to do)
+    let mut options = options;
+    options.whitespace.indent = options.whitespace.indent.min(MAX_MARGIN);
+    options.whitespace.label_margin = options.whitespace.label_margin.min(MAX_MARGIN);
+    options.whitespace.code_margin = options.whitespace.code_margin.min(MAX_MARGIN);
     let fmt = CodeFormatter::new(ast, options);
     fmt.format(path)
 }
+
+/// The widest margin (and indentation) that is honoured
+const MAX_MARGIN: usize = 1000;
 
 fn join_chunks(chunks: Vec<Chunk>, options: &FormattingOptions) -> String {
     let mut result = vec![];
